@@ -497,3 +497,96 @@ def guarded(main):
     except BaseException:   # noqa
         traceback.print_exc()
         sys.exit(2)
+
+
+# ------------------------------------------------------------------ history / object-reuse probes (round 3)
+# Stricter than common.reuse_probe: the reference value is computed on a fresh copy of the *intended* argument values
+# (original matrix + the caller's edit), not on a copy of the argument object as the earlier calls left it — so a routine
+# that overwrites its argument in a first call and therefore answers wrongly on the second call with the same object
+# is reported here as well (the write itself is C13's subject; the wrong value is a failure of the value property).
+
+def scribble(o):
+    """the caller edits a returned array in place"""
+    if isinstance(o, (tuple, list)):
+        for x in o:
+            scribble(x)
+    elif isinstance(o, np.ndarray) and o.size and o.flags.writeable:
+        try:
+            o[...] = 99
+        except Exception:   # noqa
+            pass
+
+
+def apply_edit(M, edit):
+    if edit:
+        i, j, v, sym = edit
+        M[i, j] = v
+        if sym:
+            M[j, i] = v
+
+
+def pick_edit(rs, Wf, sym, values):
+    """an in-domain edit: lesion an existing connection or set / re-weight a cell (both directions when undirected)"""
+    n = len(Wf)
+    if n < 2:
+        return None
+    nz = [(i, j) for i in range(n) for j in range(n) if i != j and Wf[i, j] != 0]
+    if nz and rs.rand() < .6:
+        i, j = nz[int(rs.randint(len(nz)))]
+        return (int(i), int(j), 0.0, sym)
+    i, j = (int(x) for x in rs.permutation(n)[:2])
+    return (i, j, float(values[int(rs.randint(len(values)))]), sym)
+
+
+def _flat(o):
+    if isinstance(o, (tuple, list)):
+        return [y for x in o for y in _flat(x)]
+    return [np.asarray(o, dtype=float)]
+
+
+def seq_probe(funcs, Wf, edit, scrib, tol=TOL, t=5.0):
+    """call funcs[:-1] on one array object A (optionally scribbling over what they return), apply `edit` to A in place,
+    call funcs[-1] on the SAME object, and compare with funcs[-1] on a fresh array holding the intended values.
+    -> None | dict describing the disagreement"""
+    A = np.array(Wf, dtype=float)
+    E = np.array(Wf, dtype=float)
+    for f in funcs[:-1]:
+        st, r = call(f, A, t=t, retry=10)
+        if st == 'ok' and scrib:
+            scribble(r)
+    apply_edit(A, edit); apply_edit(E, edit)
+    s2, r2 = call(funcs[-1], A, t=t, retry=10)
+    s3, r3 = call(funcs[-1], E.copy(), t=t, retry=10)
+    if 'timeout' in (s2, s3):
+        return None
+    if s2 != s3:
+        return {'same_object': s2, 'fresh_copy': s3, 'detail': [str(r2)[:200], str(r3)[:200]]}
+    if s2 == 'exc':
+        return None if exc_kind(r2) == exc_kind(r3) else {'same_object': r2, 'fresh_copy': r3}
+    a, b = _flat(r2), _flat(r3)
+    if len(a) != len(b) or not all(x.shape == y.shape and np.allclose(x, y, rtol=0, atol=tol, equal_nan=True) for x, y in zip(a, b)):
+        return {'same_object': [np.round(x, 12).tolist() for x in a], 'fresh_copy': [np.round(x, 12).tolist() for x in b],
+                'argument_after_calls_equals_intended': bool(np.array_equal(A, E))}
+    return None
+
+
+def make_probes(rs, cases, seqs_by_kind, count):
+    """probe tasks: every sequence x {no edit, edit} x {returned arrays left alone, scribbled}, matrices drawn from `cases`"""
+    pool = {}
+    for c in cases:
+        W, _ = case_mats(c)
+        if len(W) >= 4 and 'rep' not in c:
+            pool.setdefault(c['kind'], []).append(c)
+    combos = [(k, seq, e, sc) for k, seqs in seqs_by_kind.items() if pool.get(k) for seq in seqs for e in (False, True) for sc in (False, True)]
+    out = []
+    rounds = max(1, -(-count // max(1, len(combos))))
+    for r in range(rounds):
+        order = rs.permutation(len(combos))
+        for x in order:
+            k, seq, e, sc = combos[int(x)]
+            base = pool[k][int(rs.randint(len(pool[k])))]
+            out.append({'kind': 'probe', 'base': base, 'seq': list(seq), 'edit': bool(e), 'scrib': bool(sc),
+                        'pseed': int(rs.randint(2 ** 31)), 'tag': 'probe'})
+            if len(out) >= count:
+                return out
+    return out
